@@ -10,9 +10,11 @@ def _mut(run):
 def run():
     chk = core_check("C17", quick_keep=12, thorough_keep=4, annotate=_mut, overrides={"HostileOK": True},
                      # (sites that are evaluated but never operated are left out: for container values the tool reports
-                     #  no `update` for them, see DESIGN section 6 - the carriers make every value a container)
+                     #  no `update` for them (UndecidedValue._get_changes walks the items of a container and finds no node for a
+                     #  hand-written expression that is not a display) - the carriers make every value a container; the same
+                     #  holds for dict children that are only accessed, `dget`)
                      run_filter=lambda r: "none" not in r["ops"] and bool(r["exp"]["F"])
-                     and not any(s["op"] in ("raise", "chg") for t in r["prog"] for s in t),
+                     and not any(s["op"] in ("raise", "chg", "dget") for t in r["prog"] for s in t),
                      prop_map=lambda m: ["C17"] if m["clause"] in ("newsrc", "pending", "res", "res-reeval", "failed") else m["props"])
     if isinstance(chk, int):
         return chk
